@@ -28,29 +28,29 @@ def parseStep (s : String) : Option (List (Step Nat)) :=
   match s.splitOn ":" with
   | ["n", b, cap, hx] => do
     let b ← b.toNat?; let cap ← cap.toNat?; let bs ← ofHex hx
-    pure [.mut (.alloc b cap bs)]
+    pure [.upd (.alloc b cap bs)]
   | ["w", b, hx] => do
     let b ← b.toNat?; let bs ← ofHex hx
-    pure [.mut (.write b bs)]
+    pure [.upd (.write b bs)]
   | ["p", b, off, hx] => do
     let b ← b.toNat?; let off ← off.toNat?; let bs ← ofHex hx
-    pure [.mut (.poke b off bs)]
+    pure [.upd (.poke b off bs)]
   | ["a", b, hx] => do
     let b ← b.toNat?; let bs ← ofHex hx
-    pure [.mut (.append b bs)]
+    pure [.upd (.append b bs)]
   | ["sl", d, s, lo, hi] => do
     let d ← d.toNat?; let s ← s.toNat?; let lo ← lo.toNat?; let hi ← hi.toNat?
-    pure [.mut (.slice d s lo hi)]
+    pure [.upd (.slice d s lo hi)]
   | ["k", id, sk, _mode] => do
     let id ← id.toNat?; let sk ← sk.toNat?
-    pure [.mut (.setKey id (sk % r))]
+    pure [.upd (.setKey id (sk % r))]
   -- the caller writes the key's encoding into buffer b and decodes the key object from that buffer
   | ["kb", id, b, sk] => do
     let id ← id.toNat?; let b ← b.toNat?; let sk ← sk.toNat?
-    pure [.mut (.write b (marshalG2 (G2.smul (sk % r) g2gen))), .mut (.setKey id (sk % r))]
+    pure [.upd (.write b (marshalG2 (G2.smul (sk % r) g2gen))), .upd (.setKey id (sk % r))]
   | ["x", id, v] => do
     let id ← id.toNat?; let v ← v.toNat?
-    pure [.mut (.setScalar id (v % r))]      -- `Scalar().SetBytes` reduces mod r
+    pure [.upd (.setScalar id (v % r))]      -- `Scalar().SetBytes` reduces mod r
   | ["v", k, m, sg] => do
     let k ← k.toNat?; let m ← m.toNat?; let sg ← sg.toNat?
     pure [.call (.verify k m sg) none]
